@@ -8,6 +8,7 @@ import (
 	"bytes"
 	"context"
 	"fmt"
+	"os"
 	"path"
 	"regexp"
 	"sort"
@@ -27,6 +28,7 @@ import (
 type Replay struct {
 	Kind    string   `json:"kind"` // hist | eval | e2e | race
 	Texts   [][]byte `json:"texts,omitempty"`
+	Faults  []bool   `json:"faults,omitempty"` // per text: the tindex working directory is taken away during the call (the index cannot be saved)
 	Sources []string `json:"sources,omitempty"`
 	Sets    [][]byte `json:"sets,omitempty"` // tag texts (proper spellings) of the sets an expression is applied to
 	Show    []string `json:"show,omitempty"`
@@ -105,8 +107,13 @@ func spell(r *Rng, ps []kv, proper bool) string {
 			sb.WriteString(strconv.Quote(p.v))
 		default:
 			sb.WriteString(p.v)
+			if r.Chance(1, 4) {
+				sb.WriteByte('\\') // an unquoted value ending in a backslash, before a separator or at the end of the text
+			}
 		}
-		sb.WriteString(blanks(r))
+		if !proper || !r.Chance(1, 2) {
+			sb.WriteString(blanks(r))
+		}
 	}
 	s := sb.String()
 	if r.Chance(1, 3) {
@@ -124,6 +131,57 @@ func setText(ps []kv) string {
 		sb.WriteString(p.k + "=" + strconv.Quote(p.v))
 	}
 	return sb.String()
+}
+
+// ---------- calls into /repo: a panic becomes an observation ----------
+
+// callPanic is what a wrapped call into the implementation re-panics with; mkCaseSafe turns it into a case
+type callPanic struct {
+	fn, in, val string
+}
+
+func guard(fn, in string) {
+	if r := recover(); r != nil {
+		if cp, ok := r.(callPanic); ok {
+			panic(cp)
+		}
+		panic(callPanic{fn: fn, in: in, val: fmt.Sprint(r)})
+	}
+}
+
+func rToMap(s string) (m map[string]string, err error) {
+	defer guard("kvstring.ToMap", s)
+	return kvstring.ToMap(s)
+}
+func rCurly(s string) (r string, err error) {
+	defer guard("kvstring.RemoveCurlyBraces", s)
+	return kvstring.RemoveCurlyBraces(s)
+}
+func rSplit(s string) (r []string, err error) {
+	defer guard("kvstring.SplitString", s)
+	return kvstring.SplitString(s, '=', ',', nil)
+}
+func rTrim(s string) string {
+	defer guard("kvstring.TrimSpaces", s)
+	return kvstring.TrimSpaces(s)
+}
+func rGoc(svc tindex.Service, s string) (src string, set tag.Set, err error) {
+	defer guard("tindex.GetOrCreateJournal", s)
+	return svc.GetOrCreateJournal(s)
+}
+func rParseSource(q string) (src *lql.Source, err error) {
+	defer guard("lql.ParseSource", q)
+	return lql.ParseSource(q)
+}
+func rBuild(q string, src *lql.Source) (tef lql.TagsExpFunc, err error) {
+	defer guard("lql.BuildTagsExpFuncBySource", q)
+	return lql.BuildTagsExpFuncBySource(src)
+}
+
+// quiet runs f and swallows a panic (generator-side uses only: the case that follows reports it)
+func quiet(f func()) {
+	defer func() { recover() }()
+	f()
 }
 
 // ---------- Gallina rendering ----------
@@ -171,11 +229,11 @@ func newTables() *tables {
 
 // addText records the Unquote answers for the pieces of a tag text and the Quote answers for the values of its map
 func (t *tables) addText(s string) {
-	fine, err := kvstring.RemoveCurlyBraces(s)
+	fine, err := rCurly(s)
 	if err == nil && len(fine) > 0 {
-		if res, err := kvstring.SplitString(fine, '=', ',', nil); err == nil {
+		if res, err := rSplit(fine); err == nil {
 			for _, p := range res {
-				v := kvstring.TrimSpaces(p)
+				v := rTrim(p)
 				if len(v) > 0 && (v[0] == '"' || v[0] == '`') && !t.unq[v] {
 					t.unq[v] = true
 					u, e := strconv.Unquote(v)
@@ -188,7 +246,7 @@ func (t *tables) addText(s string) {
 			}
 		}
 	}
-	if m, err := kvstring.ToMap(s); err == nil {
+	if m, err := rToMap(s); err == nil {
 		t.addMap(m)
 	}
 }
@@ -491,6 +549,8 @@ func genSource(r *Rng, sets [][]kv) string {
 // ---------- the cases ----------
 
 type callRes struct {
+	fault   bool // the index could not be saved during the call
+	bySrc   bool // GetJournalTags(src) finds the partition with the same tags
 	err     bool
 	src     string
 	retMap  map[string]string
@@ -503,9 +563,24 @@ func identityOracle(texts []string, calls []callRes) *Violation {
 	for i := range calls {
 		if calls[i].err {
 			if calls[i].denoted != nil && len(calls[i].denoted) > 0 {
-				return &Violation{Class: "identity-accepted-text-refused", Detail: show(texts[i])}
+				// a refusal is legitimate only when the index could not be saved for a set that has no partition yet
+				exists := false
+				for j := 0; j < i; j++ {
+					if !calls[j].err && mapKey(calls[j].retMap) == mapKey(calls[i].denoted) {
+						exists = true
+					}
+				}
+				if !calls[i].fault {
+					return &Violation{Class: "identity-accepted-text-refused", Detail: show(texts[i])}
+				}
+				if exists {
+					return &Violation{Class: "fault-existing-set-refused", Detail: show(texts[i])}
+				}
 			}
 			continue
+		}
+		if !calls[i].bySrc {
+			return &Violation{Class: "identity-partition-missing-by-id", Detail: fmt.Sprintf("text %s is answered with a partition that GetJournalTags does not find (or finds with other tags)", show(texts[i]))}
 		}
 		if calls[i].denoted != nil && mapKey(calls[i].retMap) == mapKey(calls[i].denoted) {
 			good[i] = true
@@ -619,25 +694,46 @@ func gVres(kind string, items []string) string {
 }
 
 func mkHist(rp Replay) (*Case, error) {
-	svc := tindex.NewInmemServiceWithConfig(tindex.InMemConfig{DoNotSave: true})
+	dir := TempDir("c06-tindex")
+	defer RemoveAll(dir)
+	defer RemoveAll(dir + ".off")
+	svc := tindex.NewInmemServiceWithConfig(tindex.InMemConfig{WorkingDir: dir})
 	t := newTables()
 	ids := map[string]int{}
 	var obs []string
 	var texts []string
+	var gtexts []string
 	var calls []callRes
 	partMaps := map[int]map[string]string{}
 	nonCanon := false
-	for _, tb := range rp.Texts {
+	nfault := 0
+	for i, tb := range rp.Texts {
 		s := string(tb)
+		fault := i < len(rp.Faults) && rp.Faults[i]
 		texts = append(texts, s)
+		gtexts = append(gtexts, GPair(GStr(s), GBool(fault)))
 		t.addText(s)
-		src, set, err := svc.GetOrCreateJournal(s)
-		cr := callRes{err: err != nil}
-		if dm, e := kvstring.ToMap(s); e == nil {
+		if fault {
+			// the index file cannot be written: its directory is gone (os.Stat says "not exist", WriteFile fails)
+			if err := os.Rename(dir, dir+".off"); err != nil {
+				return nil, err
+			}
+		}
+		src, set, err := rGoc(svc, s)
+		if fault {
+			if e := os.Rename(dir+".off", dir); e != nil {
+				return nil, e
+			}
+		}
+		cr := callRes{err: err != nil, fault: fault}
+		if dm, e := rToMap(s); e == nil {
 			cr.denoted = dm
 		}
 		if err != nil {
 			obs = append(obs, GNone)
+			if fault {
+				nfault++
+			}
 		} else {
 			svc.Release(src)
 			if _, ok := ids[src]; !ok {
@@ -646,9 +742,12 @@ func mkHist(rp Replay) (*Case, error) {
 			m := tag.VC08TagMap(set)
 			t.addMap(m)
 			t.addText(string(set.Line()))
+			// the same partition through its id (smap)
+			ts2, e2 := svc.GetJournalTags(src, false)
+			cr.bySrc = e2 == nil && mapKey(tag.VC08TagMap(ts2)) == mapKey(m)
 			cr.src, cr.retMap = src, m
 			partMaps[ids[src]] = m
-			obs = append(obs, GSome(GPair(GNat(ids[src]), gMap(m))))
+			obs = append(obs, GSome(GTuple(GNat(ids[src]), gMap(m), GBool(cr.bySrc))))
 			if s != string(set.Line()) {
 				nonCanon = true
 			}
@@ -659,7 +758,7 @@ func mkHist(rp Replay) (*Case, error) {
 	cs.Oracle = identityOracle(texts, calls)
 	var visits []string
 	for _, q := range rp.Sources {
-		src, err := lql.ParseSource(q)
+		src, err := rParseSource(q)
 		if err != nil {
 			cs.Tags = append(cs.Tags, "source:unparsable")
 			continue
@@ -679,7 +778,10 @@ func mkHist(rp Replay) (*Case, error) {
 			break // the nil closure panicked under ims.lock, which stays locked: the service is unusable from here on
 		}
 	}
-	cs.Coq = GApp("KHist", t.render(), GListStr(texts), GList(obs), GList(visits))
+	cs.Coq = GApp("KHist", t.render(), GList(gtexts), GList(obs), GList(visits))
+	if nfault > 0 {
+		cs.Tags = append(cs.Tags, "hist:with-failed-save")
+	}
 	cs.NonTrivial = len(ids) >= 2 && nonCanon
 	cs.Tags = append(cs.Tags, fmt.Sprintf("partitions:%d", len(ids)))
 	return cs, nil
@@ -738,14 +840,14 @@ func badLike(src *lql.Source) bool {
 func mkEval(rp Replay) (*Case, error) {
 	t := newTables()
 	q := rp.Sources[0]
-	src, err := lql.ParseSource(q)
+	src, err := rParseSource(q)
 	if err != nil {
 		return nil, nil // not a sentence of the language: outside this model (C12)
 	}
 	var sets []map[string]string
 	var gsets []string
 	for _, s := range rp.Sets {
-		m, err := kvstring.ToMap(string(s))
+		m, err := rToMap(string(s))
 		if err != nil {
 			return nil, fmt.Errorf("eval case: bad set text %q", s)
 		}
@@ -755,7 +857,7 @@ func mkEval(rp Replay) (*Case, error) {
 	}
 	cs := &Case{Stream: "eval", Replay: rp}
 	gsrc := gSource(src, t)
-	tef, err := lql.BuildTagsExpFuncBySource(src)
+	tef, err := rBuild(q, src)
 	obs := GNone
 	re := &refErr{}
 	var viol *Violation
@@ -820,19 +922,34 @@ func mkE2E(rp Replay) (*Case, error) {
 	var wrote []string
 	okWrites := 0
 	denoted := map[string]map[string]string{}
+	tdir := path.Join(srv.Dir, "tindex")
+	var gtexts []string
 	for i, tb := range rp.Texts {
 		s := string(tb)
+		fault := i < len(rp.Faults) && rp.Faults[i]
 		texts = append(texts, s)
+		gtexts = append(gtexts, GPair(GStr(s), GBool(fault)))
 		t.addText(s)
 		var res api.WriteResult
 		ev := []*api.LogEvent{{Timestamp: int64(1000 + i), Message: fmt.Sprintf("m%d", i)}}
-		if err := srv.Client.Write(ctx, s, "", ev, &res); err != nil {
-			return nil, fmt.Errorf("rpc write: %v", err)
+		if fault {
+			if err := os.Rename(tdir, tdir+".off"); err != nil {
+				return nil, err
+			}
+		}
+		werr := srv.Client.Write(ctx, s, "", ev, &res)
+		if fault {
+			if err := os.Rename(tdir+".off", tdir); err != nil {
+				return nil, err
+			}
+		}
+		if werr != nil {
+			return nil, fmt.Errorf("rpc write: %v", werr)
 		}
 		wrote = append(wrote, GBool(res.Err == nil))
 		if res.Err == nil {
 			okWrites++
-			if m, e := kvstring.ToMap(s); e == nil {
+			if m, e := rToMap(s); e == nil {
 				denoted[mapKey(m)] = m
 				t.addText(lineOf(m))
 			}
@@ -855,7 +972,7 @@ func mkE2E(rp Replay) (*Case, error) {
 	cs := &Case{Stream: "e2e", Replay: rp, NonTrivial: len(denoted) >= 2, Oracle: flushViol}
 	var visits []string
 	for i, q := range rp.Sources {
-		src, err := lql.ParseSource(q)
+		src, err := rParseSource(q)
 		if err != nil || badLike(src) {
 			continue // a malformed LIKE pattern makes the server call a nil func outside any recover: not run in-process
 		}
@@ -908,7 +1025,7 @@ func mkE2E(rp Replay) (*Case, error) {
 		sort.Strings(want)
 		var got []string
 		for _, l := range uniq {
-			if m, e := kvstring.ToMap(l); e == nil {
+			if m, e := rToMap(l); e == nil {
 				got = append(got, mapKey(m))
 			} else {
 				got = append(got, "unparsable:"+l)
@@ -919,7 +1036,7 @@ func mkE2E(rp Replay) (*Case, error) {
 			cs.Oracle = &Violation{Class: "e2e-selection", Detail: fmt.Sprintf("%s (show=%v): got %v %v, want %v", show(q), useShow, kind, uniq, want)}
 		}
 	}
-	cs.Coq = GApp("KE2E", t.render(), GListStr(texts), GList(wrote), GList(visits))
+	cs.Coq = GApp("KE2E", t.render(), GList(gtexts), GList(wrote), GList(visits))
 	return cs, nil
 }
 
@@ -938,7 +1055,7 @@ func mkRace(rp Replay) (*Case, error) {
 	for _, tb := range rp.Texts {
 		texts = append(texts, string(tb))
 		t.addText(string(tb))
-		if m, e := kvstring.ToMap(string(tb)); e == nil {
+		if m, e := rToMap(string(tb)); e == nil {
 			t.addText(lineOf(m))
 		}
 	}
@@ -951,7 +1068,16 @@ func mkRace(rp Replay) (*Case, error) {
 		go func(s string) {
 			defer wg.Done()
 			<-start
-			src, _, err := svc.GetOrCreateJournal(s)
+			var src string
+			var err error
+			func() {
+				defer func() {
+					if r := recover(); r != nil {
+						err = fmt.Errorf("panic: %v", r)
+					}
+				}()
+				src, _, err = svc.GetOrCreateJournal(s)
+			}()
 			if err == nil {
 				mu.Lock()
 				srcs[src] = true
@@ -971,7 +1097,25 @@ func mkRace(rp Replay) (*Case, error) {
 	return cs, nil
 }
 
-func mkCase(rp Replay) (*Case, error) {
+// mkCase runs one case; a panic of a call into the implementation becomes a case of its own (KPanicked, which the
+// model never agrees with) with an oracle class naming the call, so that the replay holds the concrete input
+func mkCase(rp Replay) (cs *Case, err error) {
+	defer func() {
+		if r := recover(); r != nil {
+			cp, ok := r.(callPanic)
+			if !ok {
+				cp = callPanic{fn: "harness/" + rp.Kind, in: fmt.Sprint(rp.Texts, rp.Sources), val: fmt.Sprint(r)}
+			}
+			cs = &Case{Stream: rp.Kind, Replay: rp, NonTrivial: true,
+				Coq:    GApp("KPanicked", GStr(cp.fn), GStr(cp.in)),
+				Oracle: &Violation{Class: "panicked:" + cp.fn, Detail: fmt.Sprintf("%s(%s) panicked: %s", cp.fn, show(cp.in), cp.val)}}
+			err = nil
+		}
+	}()
+	return mkCase1(rp)
+}
+
+func mkCase1(rp Replay) (*Case, error) {
 	switch rp.Kind {
 	case "hist":
 		return mkHist(rp)
@@ -1007,6 +1151,13 @@ func corpus() []Replay {
 		{Kind: "eval", Sources: []string{`NOT ip like "[" OR name=a`}, Sets: bs(`name=a,ip=1`)},
 		{Kind: "eval", Sources: []string{`lower(upper(name)) prefix ab or zone suffix c and not (a < b)`}, Sets: bs(`name=ABc,zone=abc`, `a=a`, `name=x`)},
 		{Kind: "race", Texts: bs(`a=1,b=2`, `b=2,a=1`, `{a="1", b=2}`, `a=1,b=2`)},
+		// unquoted values ending in a backslash (outside a string the backslash is an ordinary byte)
+		{Kind: "hist", Texts: bs(`dir=C:\logs\,name=app`, `a=b\`, `name=app,dir="C:\\logs\\"`, `a\=b`), Sources: []string{"", "{name=app}"}},
+		// the index cannot be saved during the first write of a new set: nothing is left behind, a later write creates it
+		{Kind: "hist", Texts: bs(`a=1`, `b=2`, `b=2`, `a=1`, `{b="2"}`), Faults: []bool{false, true, false, true, true},
+			Sources: []string{"", "{b=2}", "b=2", "a=1 OR b=2"}},
+		{Kind: "e2e", Texts: bs(`a=1`, `b=2`, `b=2`, `c=3`), Faults: []bool{false, true, false, true},
+			Sources: []string{"", "{b=2}", "b=2", "c=3"}, Show: []string{"select", "show", "select", "show"}},
 	}
 }
 
@@ -1047,9 +1198,13 @@ func main() {
 					texts = append(texts, []byte(spell(r, ps, false)))
 				case x < 9:
 					// the printed line of the set, and a proper spelling of what that line denotes
-					ln := lineOf(toMap(ps))
+					ln := ""
+					quiet(func() { ln = lineOf(toMap(ps)) })
 					texts = append(texts, []byte(ln))
-					if m, err := kvstring.ToMap(ln); err == nil && r.Chance(1, 2) {
+					var m map[string]string
+					err := fmt.Errorf("not parsed")
+					quiet(func() { m, err = rToMap(ln) })
+					if err == nil && r.Chance(1, 2) {
 						var ps2 []kv
 						for _, k := range sortedKeys(m) {
 							ps2 = append(ps2, kv{k, m[k]})
@@ -1064,7 +1219,13 @@ func main() {
 			for k := r.Range(2, 5); k > 0; k-- {
 				srcs = append(srcs, genSource(r, sets))
 			}
-			jobs = append(jobs, Replay{Kind: "hist", Texts: texts, Sources: srcs})
+			faults := make([]bool, len(texts))
+			if r.Chance(1, 2) {
+				for k := range faults {
+					faults[k] = r.Chance(1, 5)
+				}
+			}
+			jobs = append(jobs, Replay{Kind: "hist", Texts: texts, Faults: faults, Sources: srcs})
 		}
 		for i := 0; i < c.N(350); i++ {
 			var sets [][]kv
@@ -1097,7 +1258,11 @@ func main() {
 				srcs = append(srcs, genSource(r, sets))
 				shows = append(shows, r.PickStr("show", "select"))
 			}
-			jobs = append(jobs, Replay{Kind: "e2e", Texts: texts, Sources: srcs, Show: shows})
+			faults := make([]bool, len(texts))
+			for k := range faults {
+				faults[k] = r.Chance(1, 4)
+			}
+			jobs = append(jobs, Replay{Kind: "e2e", Texts: texts, Faults: faults, Sources: srcs, Show: shows})
 		}
 		for i := 0; i < c.N(12); i++ {
 			ps := genSet(r, 10)
